@@ -183,7 +183,24 @@ def run_case(case) -> Outcome:  # noqa: C901, PLR0912, PLR0915
                     obs["cons_fps"].append(("after", K.fp()))
 
         holder = {}
-        if create_in == "X":
+        if create_in == "XX":
+            # created two scope levels deep and (for 'outside') consumed after BOTH were left: the root must not
+            # complete before the stream's scope has
+            def root_completed(metrics):
+                obs["events"].append("root_completed@" + ("after-stream" if obs["end"] is not None else "before-stream-end"))
+
+            async with ctx.scope("root", completion=root_completed):
+                async with ctx.scope("X", K.state("A", 1), completion=x_completed):
+                    holder["creation_fp"] = K.fp()["state"]
+                    holder["s"] = ctx.stream(gen, "s")
+                    if consume == "same":
+                        await run_consumer(holder["s"])
+                    elif consume != "outside":
+                        async with ctx.scope("Y", K.state("A", 2)):
+                            await run_consumer(holder["s"])
+            if consume == "outside":
+                await run_consumer(holder["s"])
+        elif create_in == "X":
             async with ctx.scope("X", K.state("A", 1), completion=x_completed):
                 holder["creation_fp"] = K.fp()["state"]
                 holder["s"] = ctx.stream(gen, "s")
@@ -281,7 +298,9 @@ def run_case(case) -> Outcome:  # noqa: C901, PLR0912, PLR0915
     if terminal and obs["err"] is None:
         if len(finished) != 1:
             out.violate("d", f"C11.d/stream-scope-not-completed/{unstarted}/{mode}/{consume}", f"started={len(started)} finished={len(finished)} end={obs['end']!r}")
-        if create_in == "X" and obs["events"].count("X_completed") != 1:
+        if create_in == "XX" and any(e == "root_completed@before-stream-end" for e in obs["events"] if isinstance(e, str)):
+            out.violate("d", f"C11.d/outer-scope-completed-before-stream-scope/{unstarted}/{mode}/{consume}", f"{obs['events']}")
+        if create_in in ("X", "XX") and obs["events"].count("X_completed") != 1:
             out.violate("d", f"C11.d/creating-scope-not-completed/{unstarted}/{mode}/{consume}", f"{obs['events']}")
     errs = [e for e in res.errors]
     unr = env.unraisable()[unraisable_before:]
@@ -314,7 +333,7 @@ def strategy(tier):
         st.booleans(),
         st.booleans(),
         st.sampled_from([False, False, True]),
-        st.sampled_from(["X", "X", "X", "none"]),
+        st.sampled_from(["X", "X", "XX", "XX", "none"]),
         st.sampled_from(["same", "same", "other_scope", "outside", "other_task", "split_tasks"]),
         st.sampled_from(["full", "full", "break", "abandon", "close_unstarted"]),
         st.integers(0, 3),
@@ -324,7 +343,7 @@ def strategy(tier):
 def enumerate_cases(tier):
     for n in (0, 1, 2):
         for end in ("stop", "raise"):
-            for ci in ("X", "none"):
+            for ci in ("X", "XX", "none"):
                 for co in ("same", "other_scope", "outside", "other_task", "split_tasks"):
                     for mo in ("full", "break", "abandon", "close_unstarted"):
                         for ba in (0, 1):
